@@ -152,7 +152,7 @@ let next_control t : control =
   | k -> failwith ("bad control " ^ k)
 let next_controls t = next_list t next_control
 
-let rec next_filter t : filter =
+let rec next_filter t : filter0 =
   match next t with
   | "and" -> FAnd (next_list t next_filter)
   | "or" -> FOr (next_list t next_filter)
@@ -318,6 +318,30 @@ let do_muxreg t =
   let errs = List.fold_left (fun (m, acc) g -> let (m', ok) = register m g in (m', acc ^ (if ok then "0" else "1"))) (mux_empty, "") regs |> snd in
   String.concat " " ["OK"; string_of_int (List.length m.routes); b01 (m.dflt <> None); b01 (m.unbind <> None); "e" ^ errs]
 
+(* ---------- test directory (C19, C20) ---------- *)
+let next_dattr t = let n = next_hex t in let vs = next_list t next_hex in (n, vs)
+let next_dentry t : dentry = let dn = next_hex t in let attrs = next_list t next_dattr in { d_dn = dn; d_attrs = attrs }
+let next_dop t : dop =
+  match next t with
+  | "bind" -> let dn = next_hex t in let pw = next_hex t in DBind (dn, pw)
+  | "add" -> let dn = next_hex t in DAdd (dn, next_list t next_dattr)
+  | "modify" -> let dn = next_hex t in
+    DModify (dn, next_list t (fun t -> let op = next_z t in let ty = next_hex t in let vs = next_list t next_hex in ((op, ty), vs)))
+  | "delete" -> DDelete (next_hex t)
+  | "search" -> let b = next_hex t in let f = next_hex t in DSearch (b, f)
+  | "setusers" -> DSetUsers (next_list t next_dentry)
+  | "setgroups" -> DSetGroups (next_list t next_dentry)
+  | "setanon" -> DSetAnon (next_bool t)
+  | k -> failwith ("bad dop " ^ k)
+let out_dentry (e : dentry) = hex_of_bytes e.d_dn ^ " " ^ out_list (fun (n, vs) -> hex_of_bytes n ^ " " ^ out_list hex_of_bytes vs) e.d_attrs
+let do_dir t =
+  let udn = next_hex t in let gdn = next_hex t in let an = next_bool t in
+  let us = next_list t next_dentry in let gs = next_list t next_dentry in
+  let ops = next_list t next_dop in
+  let d = { users = us; groups = gs; anon = an; user_dn = udn; group_dn = gdn } in
+  let (_, rs) = drun ascii_eqfold true d ops in
+  out_list (fun r -> "R " ^ string_of_z r.res_code ^ " " ^ out_list out_dentry r.res_entries) rs
+
 let dispatch kind t =
   match kind with
   | "convert" -> do_convert t
@@ -338,6 +362,7 @@ let dispatch kind t =
   | "resp" -> do_resp t
   | "serve" -> do_serve t
   | "muxreg" -> do_muxreg t
+  | "dir" -> do_dir t
   | k -> failwith ("unknown kind " ^ k)
 
 let () =
